@@ -309,6 +309,286 @@ pub fn run_case(case: &Value) -> Value {
     json!({ "obs": obs, "end": end })
 }
 
+// ------------------------------------------------------------------------------------------------
+// Supply lanes: `Uplinks` for one remote (supply branch of replace_and_pop, SupplyBackpressure),
+// driven from specs/SupplyUplink.tla.
+
+mod supply {
+    use super::{body, mix};
+    use bytes::{Bytes, BytesMut};
+    use h_common::count_waker;
+    use serde_json::{json, Value};
+    use std::future::Future;
+    use std::num::NonZeroUsize;
+    use std::pin::Pin;
+    use std::task::{Context, Poll};
+    use swimos_api::agent::UplinkKind;
+    use swimos_messages::protocol::{Notification, RawResponseMessageDecoder};
+    use swimos_model::Text;
+    use swimos_runtime::verif_hooks::{
+        DisconnectionReason, LaneRegistry, SpecialAction, UplinkResponse, Uplinks, WriteResult, WriteTask,
+    };
+    use swimos_utilities::byte_channel::{byte_channel, ByteReader};
+    use swimos_utilities::trigger::promise;
+    use tokio::io::{AsyncRead, ReadBuf};
+    use tokio_util::codec::Decoder;
+    use uuid::Uuid;
+
+    const LANES: [&str; 4] = ["s", "supply_lane_with_a_much_longer_name_0123456789", "\u{3bb}\u{4e16}", "v"];
+    const NODE: &str = "/agent/node";
+
+    fn lane_name(l: u64, seed: u64) -> String {
+        let base = LANES[((l + seed) % LANES.len() as u64) as usize];
+        if (l as usize) <= LANES.len() {
+            base.to_string()
+        } else {
+            format!("{}{}", base, l)
+        }
+    }
+
+    type Fut = Pin<Box<dyn Future<Output = WriteResult>>>;
+
+    struct Ctx {
+        identity: Uuid,
+        seed: u64,
+        nl: u64,
+        uplinks: Uplinks,
+        registry: LaneRegistry,
+        ids: Vec<u64>,
+        rx: ByteReader,
+        fut: Option<Fut>,
+        acc: BytesMut,
+    }
+
+    impl Ctx {
+        fn drain(&mut self) -> usize {
+            let (c, w) = count_waker();
+            let mut cx = Context::from_waker(&w);
+            let mut total = 0;
+            let mut store = [0u8; 4096];
+            loop {
+                let mut buf = ReadBuf::new(&mut store);
+                let woken = c.get();
+                match Pin::new(&mut self.rx).poll_read(&mut cx, &mut buf) {
+                    Poll::Ready(Ok(())) => {
+                        let got = buf.filled();
+                        if got.is_empty() {
+                            break;
+                        }
+                        total += got.len();
+                        self.acc.extend_from_slice(got);
+                    }
+                    Poll::Ready(Err(_)) => break,
+                    Poll::Pending => {
+                        if c.get() > woken {
+                            continue; // cooperative yield of the byte channel
+                        }
+                        break;
+                    }
+                }
+            }
+            total
+        }
+
+        fn frames(&mut self) -> (Vec<Value>, usize) {
+            let mut dec = RawResponseMessageDecoder;
+            let mut out = vec![];
+            loop {
+                match dec.decode(&mut self.acc) {
+                    Ok(Some(msg)) => {
+                        let lane = msg.path.lane.as_str().to_string();
+                        let l = (1..=self.nl).find(|l| lane_name(*l, self.seed) == lane);
+                        let env_ok = msg.origin == self.identity && msg.path.node.as_str() == NODE;
+                        let v = match (l, &msg.envelope) {
+                            (None, _) => json!(["?", 0, 0, format!("unknown lane {}", lane)]),
+                            (Some(l), _) if !env_ok => json!(["?", l, 0, "wrong origin or node"]),
+                            (Some(l), Notification::Linked) => json!(["l", l, 0]),
+                            (Some(l), Notification::Synced) => json!(["s", l, 0]),
+                            (Some(l), Notification::Unlinked(_)) => json!(["u", l, 0]),
+                            (Some(l), Notification::Event(b)) => {
+                                let s = String::from_utf8_lossy(&b[..b.len().min(24)]).to_string();
+                                let mut it = s.split(':');
+                                let bl = it.next().and_then(|x| x.parse::<u64>().ok());
+                                let bn = it.next().and_then(|x| x.parse::<u64>().ok());
+                                match (bl, bn) {
+                                    (Some(bl), Some(bn)) if bl == l && b.as_ref() == body(l, bn, self.seed).as_slice() => {
+                                        json!(["e", l, bn])
+                                    }
+                                    _ => json!(["e", l, 0, "body is not the body of an item pushed to this lane"]),
+                                }
+                            }
+                        };
+                        out.push(v);
+                    }
+                    Ok(None) => break,
+                    Err(e) => {
+                        out.push(json!(["?", 0, 0, format!("decode error: {}", e)]));
+                        self.acc.clear();
+                        break;
+                    }
+                }
+            }
+            (out, self.acc.len())
+        }
+
+        /// Drive the write task in flight to completion, reading as the remote would.
+        fn finish(&mut self) -> WriteResult {
+            let mut fut = self.fut.take().expect("no write in flight");
+            let mut stalls = 0;
+            let mut rounds = 0u64;
+            let res = loop {
+                let (c, w) = count_waker();
+                let mut cx = Context::from_waker(&w);
+                match fut.as_mut().poll(&mut cx) {
+                    Poll::Ready(r) => break r,
+                    Poll::Pending => {
+                        let n = self.drain();
+                        if c.get() > 0 {
+                            stalls = 0;
+                        } else if n == 0 {
+                            stalls += 1;
+                            if stalls > 3 {
+                                panic!("the write task stays pending although the channel is empty");
+                            }
+                        } else {
+                            stalls = 0;
+                        }
+                    }
+                }
+                rounds += 1;
+                if rounds > 10_000_000 {
+                    panic!("the write task does not complete");
+                }
+            };
+            self.drain();
+            res
+        }
+
+        fn started(&mut self, t: Option<WriteTask>, o: &mut Value) {
+            match t {
+                Some(t) => {
+                    if self.fut.is_some() {
+                        panic!("a second write task was returned while one is in flight");
+                    }
+                    self.fut = Some(Box::pin(t.into_future()));
+                    o["some"] = json!(true);
+                }
+                None => o["some"] = json!(false),
+            }
+        }
+
+        fn complete(&mut self, o: &mut Value) {
+            let (sender, buffer, result) = self.finish();
+            if let Err(e) = result {
+                panic!("the write to an open channel failed: {}", e);
+            }
+            let (fr, trail) = self.frames();
+            o["fr"] = json!(fr);
+            if trail > 0 {
+                o["trail"] = json!(trail);
+            }
+            let next = self.uplinks.replace_and_pop(sender, buffer, &self.registry);
+            self.started(next, o);
+        }
+    }
+
+    pub fn run_case(case: &Value) -> Value {
+        let cap = case["cfg"]["cap"].as_u64().unwrap_or(64) as usize;
+        let seed = case["cfg"]["seed"].as_u64().unwrap_or(0);
+        let ns = case["cfg"]["ns"].as_u64().unwrap_or(2);
+        let acts = case["acts"].as_array().unwrap();
+        let identity = Uuid::from_u128(0x5eed_0000_0000_0000_0000_0000_0000_0001u128 + seed as u128);
+        let remote_id = Uuid::from_u128(0x0e307e00u128 + mix(seed) as u128);
+        let (tx, rx) = byte_channel(NonZeroUsize::new(cap).unwrap());
+        let (ptx, _prx) = promise::promise::<DisconnectionReason>();
+        let mut registry = LaneRegistry::default();
+        let nl = ns + 1;
+        let mut ids = vec![0u64; (nl + 1) as usize];
+        for l in 1..=nl {
+            ids[l as usize] = registry.add_endpoint(Text::new(&lane_name(l, seed)));
+        }
+        let mut c = Ctx {
+            identity,
+            seed,
+            nl,
+            uplinks: Uplinks::new(Text::new(NODE), identity, remote_id, tx, ptx),
+            registry,
+            ids,
+            rx,
+            fut: None,
+            acc: BytesMut::new(),
+        };
+        let mut obs: Vec<Value> = Vec::with_capacity(acts.len());
+        for a in acts {
+            let k = a["k"].as_str().unwrap();
+            let l = a["l"].as_u64().unwrap_or(0);
+            let n = a["n"].as_u64().unwrap_or(0);
+            let id = c.ids.get(l as usize).copied().unwrap_or(0);
+            let mut o = json!({});
+            match k {
+                "supply" => {
+                    let ev = UplinkResponse::Supply(Bytes::from(body(l, n, seed)));
+                    let t = c.uplinks.push(id, ev, &c.registry).expect("valid");
+                    c.started(t, &mut o);
+                }
+                "value" => {
+                    let ev = UplinkResponse::Value(Bytes::from(body(l, n, seed)));
+                    let t = c.uplinks.push(id, ev, &c.registry).expect("valid");
+                    c.started(t, &mut o);
+                }
+                "synced" => {
+                    let t = c
+                        .uplinks
+                        .push(id, UplinkResponse::Synced(UplinkKind::Supply), &c.registry)
+                        .expect("valid");
+                    c.started(t, &mut o);
+                }
+                "linked" => {
+                    let t = c.uplinks.push_special(SpecialAction::Linked(id), &c.registry);
+                    c.started(t, &mut o);
+                }
+                "unlinked" => {
+                    let t = c
+                        .uplinks
+                        .push_special(SpecialAction::unlinked(id, Text::new("gone")), &c.registry);
+                    c.started(t, &mut o);
+                }
+                "complete" => {
+                    if c.fut.is_none() {
+                        o["err"] = json!("no write in flight");
+                    } else {
+                        c.complete(&mut o);
+                    }
+                }
+                other => panic!("bad action {}", other),
+            }
+            obs.push(o);
+        }
+        // Epilogue (P only, law L4): let every write complete.
+        let mut end_frames: Vec<Value> = vec![];
+        let mut trail = 0;
+        for _ in 0..4096 {
+            if c.fut.is_none() {
+                break;
+            }
+            let mut o = json!({});
+            c.complete(&mut o);
+            end_frames.extend(o["fr"].as_array().cloned().unwrap_or_default());
+            trail = o["trail"].as_u64().unwrap_or(0);
+        }
+        let mut end = json!({"fr": end_frames, "idle": c.fut.is_none()});
+        if trail > 0 {
+            end["trail"] = json!(trail);
+        }
+        json!({ "obs": obs, "end": end })
+    }
+}
+
 fn main() {
-    h_common::drive(run_case);
+    let args: Vec<String> = std::env::args().collect();
+    if args.get(1).map(|s| s.as_str()) == Some("supply") {
+        h_common::drive(supply::run_case);
+    } else {
+        h_common::drive(run_case);
+    }
 }
